@@ -50,6 +50,7 @@ pub struct World {
     pub nodes: Vec<verif::NodeAddrs>,
     pub head_addr: usize,
     pub steps: u64,
+    pub cur_cmd: Vec<usize>,
     /// Statistics for the evidence: how often which path was taken.
     pub stats: HashMap<&'static str, u64>,
 }
@@ -86,6 +87,7 @@ pub fn init_world(nthreads: usize) {
         nodes: Vec::new(),
         head_addr: verif::list_head_addr(),
         steps: 0,
+        cur_cmd: vec![0; nthreads],
         stats: HashMap::new(),
     });
     verif::install(&HOOKS);
